@@ -49,6 +49,17 @@ theorem ask_foot (r : Req) (hk : K r.kind = true) :
 
 attribute [local spec] ask_foot
 
+/-- `askHook r` (the `ask` of the observability call sites) has the same footprint -/
+theorem askHook_foot (r : Req) (hk : K r.kind = true) :
+    ⦃fun w => ⌜Foot K w0 w⌝⦄ askHook r ⦃footPost K w0⦄ := by
+  mvcgen [askHook]
+  all_goals refine Foot.trans (by assumption) ?_
+  all_goals first
+    | exact Foot.exchange _ _ _ _ _ hk
+    | exact ⟨⟨[(r, Ans.raise .stuck 0)], rfl, by simp [hk]⟩, rfl, rfl, rfl, rfl, Nat.le_refl _⟩
+
+attribute [local spec] askHook_foot
+
 theorem askMetric_foot (hm : K .metric = true) (ev : Event) (a s : Nat) (t : Tags) :
     ⦃fun w => ⌜Foot K w0 w⌝⦄ askMetric ev a s t ⦃footPost K w0⦄ := by
   mvcgen [askMetric]
@@ -433,7 +444,11 @@ theorem ask_ext (r : Req) (hk : K r.kind = true) :
   ext_close
 
 
-attribute [local spec] ask_ext
+theorem askHook_ext (r : Req) (hk : K r.kind = true) :
+    ⦃fun w => ⌜Ext K w0 w⌝⦄ askHook r ⦃extPost K w0⦄ :=
+  askHook_triple r (ask_ext K w0 r hk) (fun w h => presil_cases (Ext K w0) w (fun _ => h))
+
+attribute [local spec] ask_ext askHook_ext
 end
 
 section loopProcs
@@ -441,8 +456,10 @@ variable (w0 : World)
 
 theorem ask_loop (r : Req) (hk : loopK r.kind = true) :
     ⦃fun w => ⌜Ext loopK w0 w⌝⦄ ask r ⦃extPost loopK w0⦄ := ask_ext loopK w0 r hk
+theorem askHook_loop (r : Req) (hk : loopK r.kind = true) :
+    ⦃fun w => ⌜Ext loopK w0 w⌝⦄ askHook r ⦃extPost loopK w0⦄ := askHook_ext loopK w0 r hk
 end loopProcs
-attribute [local spec] ask_loop
+attribute [local spec] ask_loop askHook_loop
 
 theorem askMetric_ext (w0 : World) (ev : Event) (a s : Nat) (t : Tags) :
     ⦃fun w => ⌜Ext loopK w0 w⌝⦄ askMetric ev a s t ⦃extPost loopK w0⦄ := by
@@ -1033,7 +1050,12 @@ theorem ask_fq (r : Req) (hr : R r = true) :
   mvcgen [ask]
   fq_close
 
-attribute [local spec] ask_fq
+theorem askHook_fq (r : Req) (hr : R r = true) :
+    ⦃fun w => ⌜FootQ R w0 w⌝⦄ askHook r ⦃fqPost R w0⦄ :=
+  askHook_triple r (ask_fq R w0 r hr)
+    (fun w h => presil_cases (FootQ R w0) w (fun _ => ⟨h.1, h.2, h.3, h.4, h.5⟩))
+
+attribute [local spec] ask_fq askHook_fq
 
 theorem askMetric_fq (ev : Event) (a s : Nat) (t : Tags) (hm : R (.metric ev a s t) = true) :
     ⦃fun w => ⌜FootQ R w0 w⌝⦄ askMetric ev a s t ⦃fqPost R w0⦄ := by
@@ -1106,7 +1128,7 @@ open Retry
 section
 variable (R : Req → Bool) (w0 : World)
 
-attribute [local spec] ask_fq
+attribute [local spec] ask_fq askHook_fq
 
 theorem recordStrategySuccess_fq (cfg : Cfg) (hs : ∀ k, R (.stratRecordSuccess k) = true) :
     ⦃fun w => ⌜FootQ R w0 w⌝⦄ recordStrategySuccess cfg ⦃fqPost R w0⦄ := by
@@ -1377,7 +1399,7 @@ open Retry Policy
 section
 variable (K : Kind → Bool) (w0 : World)
 
-attribute [local spec] ask_ext
+attribute [local spec] ask_ext askHook_ext
 
 theorem askMetric_extK (hm : K .metric = true) (ev : Event) (a s : Nat) (t : Tags) :
     ⦃fun w => ⌜Ext K w0 w⌝⦄ askMetric ev a s t ⦃extPost K w0⦄ := by
@@ -1652,6 +1674,14 @@ theorem ask_fxW (r : Req) (hk : Q r = true) :
     | exact ⟨FootX.trans (by assumption) (FootX.exchange _ _ _ _ hk),
         (Prov.of_exchange_sw _ _ _ _ _).imp id (Prov.lift (FootX.toS (by assumption)))⟩
 
+theorem askHook_fx (r : Req) (hk : Q r = true) (hs : swallowed r = false) :
+    ⦃fun w => ⌜FootX Q w0 w⌝⦄ askHook r ⦃fxPost Q w0⦄ :=
+  askHook_triple r (ask_fx Q w0 r hk hs) (fun w h => presil_cases (FootX Q w0) w (fun _ => ⟨h.1, h.2⟩))
+
+theorem askHook_fxW (r : Req) (hk : Q r = true) :
+    ⦃fun w => ⌜FootX Q w0 w⌝⦄ askHook r ⦃fxPost Q w0 swOwn⦄ :=
+  askHook_triple r (ask_fxW Q w0 r hk) (fun w h => presil_cases (FootX Q w0) w (fun _ => ⟨h.1, h.2⟩))
+
 /-- split every hypothesis that is a conjunction (mvcgen hands over a spec's postcondition as one fact) -/
 macro "split_ands" : tactic => `(tactic| repeat (revert ‹_ ∧ _›; rintro ⟨_, _⟩))
 
@@ -1725,13 +1755,13 @@ macro "fx_close" : tactic => `(tactic| all_goals (
 
 theorem askMetric_fx (ev : Event) (a s : Nat) (t : Tags) (hm : Q (.metric ev a s t) = true) :
     ⦃fun w => ⌜FootX Q w0 w⌝⦄ askMetric ev a s t ⦃fxPost Q w0 swOwn⦄ := by
-  have h_ask_fxW := ask_fxW Q
+  have h_ask_fxW := askHook_fxW Q
   mvcgen [askMetric, h_ask_fxW]
   fx_close
 
 theorem askLog_fx (ev : Event) (a s : Nat) (t : Tags) (ra : Option Int) (hl : Q (.log ev a s t ra) = true) :
     ⦃fun w => ⌜FootX Q w0 w⌝⦄ askLog ev a s t ra ⦃fxPost Q w0 swOwn⦄ := by
-  have h_ask_fxW := ask_fxW Q
+  have h_ask_fxW := askHook_fxW Q
   mvcgen [askLog, h_ask_fxW]
   fx_close
 
@@ -1841,7 +1871,7 @@ theorem callAttemptEndFromOutcome_fx (cfg : Cfg) (attempt : Nat) (o : AOutcome)
 theorem callBeforeSleep_fx (cfg : Cfg) (ctx : BackoffCtx) (sleep : Nat)
     (hb : ∀ lvl, Q (.beforeSleep lvl ctx sleep) = true) :
     ⦃fun w => ⌜FootX Q w0 w⌝⦄ callBeforeSleep cfg ctx sleep ⦃fxPost Q w0⦄ := by
-  have h_ask_fxW := ask_fxW Q
+  have h_ask_fxW := askHook_fxW Q
   mvcgen [callBeforeSleep, swallowException, h_ask_fxW]
   fx_close
 
